@@ -9,6 +9,7 @@ mod c03;
 mod c05;
 mod c06;
 mod c07;
+mod c18;
 
 static HOOKS: rzmq::verif::sched::Hooks = rzmq::verif::sched::Hooks {
   point: mc_core::e2::hook_point,
@@ -60,6 +61,7 @@ fn main() {
         "C05" => c05::run(tier),
         "C06" => c06::run(tier),
         "C07" => c07::run(tier),
+        "C18" => c18::run(tier),
         _ => {
           eprintln!("no check registered for {}", prop);
           std::process::exit(2);
@@ -82,6 +84,7 @@ fn main() {
         "C05" => c05::replay(&sub, &v["witness"]),
         "C06" => c06::replay(&sub, &v["witness"]),
         "C07" => c07::replay(&sub, &v["witness"]),
+        "C18" => c18::replay(&sub, &v["witness"]),
         _ => Err(format!("no replay registered for {}", prop)),
       };
       match res {
